@@ -140,6 +140,74 @@ def is_inf(e):
     return bool(c) and c[-1] in ("inf", "Inf", "infty", "Infinity", "PINF") and c[0] in ("np", "numpy", "math", "inf")
 
 
+def grid_witness(code, spec, names, lo=0, hi=5, mode="equiv"):
+    """Evaluate the *AST* `code` (comparisons / and / or / not over integer names, + - * and constants) against the python
+    predicate `spec(env)` for every integer assignment of `names` in [lo, hi]; leaves that are not integer expressions over
+    `names` are free booleans (both values are tried).  mode: 'equiv' | 'code_implies_spec'.  Returns a witness env or None.
+    Raises order.Unsupported when a numeric operand cannot be evaluated."""
+    import itertools
+    free = []
+
+    def num(e, env):
+        if isinstance(e, ast.Constant) and isinstance(e.value, (int, float)) and not isinstance(e.value, bool):
+            return e.value
+        if isinstance(e, ast.Name) and e.id in env:
+            return env[e.id]
+        if isinstance(e, ast.UnaryOp) and isinstance(e.op, ast.USub):
+            return -num(e.operand, env)
+        if isinstance(e, ast.BinOp) and isinstance(e.op, (ast.Add, ast.Sub, ast.Mult)):
+            a, c = num(e.left, env), num(e.right, env)
+            return a + c if isinstance(e.op, ast.Add) else a - c if isinstance(e.op, ast.Sub) else a * c
+        raise order.Unsupported(f"`{au.src(e)}` is not an integer expression over {sorted(names)}")
+
+    def collect(e):
+        if isinstance(e, ast.BoolOp):
+            for v in e.values:
+                collect(v)
+        elif isinstance(e, ast.UnaryOp) and isinstance(e.op, ast.Not):
+            collect(e.operand)
+        elif isinstance(e, ast.Compare) and all(type(o) in order.CMP for o in e.ops):
+            pass
+        elif isinstance(e, ast.Constant) and isinstance(e.value, bool):
+            pass
+        else:
+            k_ = au.src(e)
+            if k_ not in free:
+                free.append(k_)
+
+    def ev(e, env, fenv):
+        if isinstance(e, ast.BoolOp):
+            vs = [ev(v, env, fenv) for v in e.values]
+            return all(vs) if isinstance(e.op, ast.And) else any(vs)
+        if isinstance(e, ast.UnaryOp) and isinstance(e.op, ast.Not):
+            return not ev(e.operand, env, fenv)
+        if isinstance(e, ast.Compare) and all(type(o) in order.CMP for o in e.ops):
+            left = num(e.left, env)
+            for o, c in zip(e.ops, e.comparators):
+                right = num(c, env)
+                if not order.CMP[type(o)](left, right):
+                    return False
+                left = right
+            return True
+        if isinstance(e, ast.Constant) and isinstance(e.value, bool):
+            return e.value
+        return fenv[au.src(e)]
+    collect(code)
+    names = list(names)
+    n_env = 0
+    for vals in itertools.product(range(lo, hi + 1), repeat=len(names)):
+        env = dict(zip(names, vals))
+        for fv in itertools.product((False, True), repeat=len(free)):
+            fenv = dict(zip(free, fv))
+            a, b_ = ev(code, env, fenv), bool(spec(env))
+            n_env += 1
+            if (mode == "equiv" and a != b_) or (mode == "code_implies_spec" and a and not b_):
+                env = dict(env)
+                env.update(fenv)
+                return env, n_env
+    return None, n_env
+
+
 # ===================================================================== run
 def run(ctx):
     leafmap = new_leaf(ctx)
@@ -362,24 +430,30 @@ def constructor(ctx, leafmap, split):
     else:
         ctx.fail("C11-O1", site, "neither branch of the leaf test finalises the popped leaf on all of its paths", "")
         return None
+    # `size <= max_leaf_size or <other reason to stop>`: only the disjuncts on max_leaf_size are the leaf criterion
+    crit, extra_disjuncts = leaf_if.test, []
+    if leaf_pol and isinstance(leaf_if.test, ast.BoolOp) and isinstance(leaf_if.test.op, ast.Or):
+        mine = [v for v in leaf_if.test.values if "max_leaf_size" in au.names(v)]
+        extra_disjuncts = [v for v in leaf_if.test.values if "max_leaf_size" not in au.names(v)]
+        crit = mine[0] if len(mine) == 1 else ast.BoolOp(op=ast.Or(), values=mine)
     size_forms = {f"{popped}.size": "size", f"len({popped}.points)": "size", f"{popped}.points.size": "size",
                   f"{popped}.points.shape[0]": "size", "max_leaf_size": "max_leaf_size"}
     try:
-        wit, n = order.compare(leaf_if.test, "size <= max_leaf_size", generic_sym(size_forms), negate_code=not leaf_pol)
-        extra = set(order.Pred(generic_sym(size_forms)).collect(leaf_if.test).symbols) - {"size", "max_leaf_size"}
+        wit, n = order.compare(crit, "size <= max_leaf_size", generic_sym(size_forms), negate_code=not leaf_pol)
+        extra = set(order.Pred(generic_sym(size_forms)).collect(crit).symbols) - {"size", "max_leaf_size"}
         ctx.check(wit is None and not extra, "C11-O1", ctx.site(KD, fn, leaf_if),
-                  f"leaf test `{au.src(leaf_if.test)}` is not `size <= max_leaf_size`",
+                  f"leaf test `{au.src(crit)}` is not `size <= max_leaf_size`",
                   f"differs from the documented leaf criterion for {wit}" + (f"; unrecognised operands {sorted(extra)}" if extra else ""),
                   note=f"leaf test, {n} orderings")
     except order.Unsupported as ex:
         ctx.fail("C11-O1", ctx.site(KD, fn, leaf_if), "leaf test is not a comparison of the leaf size with max_leaf_size", str(ex))
 
     other = [p for p in fin if not p.has_guard(leaf_if.test, leaf_pol)]
-    ctx.check(bool(other), "C11-T1", site,
+    ctx.check(bool(other) or bool(extra_disjuncts), "C11-T1", site,
               "the only path of the construction loop that finalises a leaf requires size <= max_leaf_size",
               "more than max_leaf_size identical points can never be separated by a pivot: every split returns the whole set on one side, "
               "the leaf is re-queued for ever (12 identical points with max_leaf_size=10 never return)",
-              note=f"{len(other)} finalising path(s) for an oversized leaf")
+              note=f"{len(other)} finalising path(s) for an oversized leaf" + (f", stop condition `{au.src(extra_disjuncts[0])}`" if extra_disjuncts else ""))
 
     # ---------------- children (pushed names bound to self._new_leaf(...))
     pushed = []
@@ -588,7 +662,7 @@ def constructor(ctx, leafmap, split):
                 ctx.fail("C11-A1", ctx.site(KD, fn, st),
                          f"subscript store into `{au.src(base)}`, a corner array owned by an existing box",
                          "AABB keeps views of the arrays it is given: the parent's box (and every box sharing the corner) is corrupted")
-    ctx.require_count("C11-A1 arrays receiving subscript stores in KDTree.__init__", n_a1, 2)
+    ctx.require_count("C11-A1 arrays receiving subscript stores in KDTree.__init__", n_a1, 1)
 
     if split_info and split is not None:
         for name, call, bst, pc in children:
@@ -807,10 +881,10 @@ def knn(ctx, root_id):
         return
     trim = trims[0]
     try:
-        wit, ne = order.compare(trim.test, "n > k", generic_sym({n: "n", k: "k"}))
+        wit, ne = grid_witness(trim.test, lambda env: env[n] > env[k], (n, k))
         ctx.check(wit is None, "C11-O1", ctx.site(KD, fn, trim), f"heap trimming test `{au.src(trim.test)}` is not `{n} > {k}`",
                   f"differs from `held > k` for {wit}: the query returns a number of points other than min(k, n)",
-                  note=f"trim test, {ne} orderings")
+                  note=f"trim test, {ne} integer assignments")
     except order.Unsupported as ex:
         ctx.fail("C11-O1", ctx.site(KD, fn, trim), f"heap trimming test `{au.src(trim.test)}` is not a comparison of the counter with k", str(ex))
     pops = [s for s in trim.body if isinstance(s, ast.Expr) and heap_calls(s, ("pop", "get"))]
@@ -868,6 +942,13 @@ def knn(ctx, root_id):
         ctx.ok("C11-K1", site, "children are queued unconditionally (no pruning)")
     else:
         seeds = set().union(*[au.names(t) for t, _ in guard_tests])
+        # an assignment executed under a test inside the search loop also carries the names of that test
+        # (`if n_found >= k: bound = ...`); heap effects (push/pop on the candidate heap) carry nothing
+        for name in list(deps):
+            for s_, v_, i_ in U.bindings_of(fn, name, within=loop):
+                for t_, _p in au.guards(s_, stop=loop):
+                    if t_ is not lif.test:
+                        deps.setdefault(name, set()).update(au.names(t_))
         clo = U.closure(deps, seeds)
         dep_ok = k in clo
         ctx.check(dep_ok, "C11-K1", ctx.site(KD, fn, guard_tests[0][0]),
@@ -888,7 +969,7 @@ def knn(ctx, root_id):
         sorted_used = False
         if isinstance(it, ast.Call) and au.call_tail(it) == "sorted" and len(it.args) == 1 and not it.keywords:
             it, sorted_used = it.args[0], True
-        it = b.resolve(it, at=fl) if isinstance(it, ast.Name) else it
+        it = b.resolve(it, at=fl, keep=(popped, pt)) if isinstance(it, ast.Name) else it
         if isinstance(it, (ast.List, ast.Tuple)) and all(isinstance(x, ast.Tuple) and len(x.elts) == 2 for x in it.elts):
             kids, pair_ok = set(), True
             for tup in it.elts:
@@ -949,16 +1030,24 @@ def knn_bound(ctx, fn, b, guard_tests, deps, H, n, k):
                       note=f"never skips a closer box, {res['n']} orderings")
         except order.Unsupported:
             pass
-        e = b.resolve(ast.Name(id=bound, ctx=ast.Load()), at=t, keep=(H, n, k))
-        if isinstance(e, ast.IfExp) and (is_inf(e.body) != is_inf(e.orelse)):
-            finite_test = e.test if is_inf(e.orelse) else ast.UnaryOp(op=ast.Not(), operand=e.test)
-            finite = e.body if is_inf(e.orelse) else e.orelse
+        for s_, v_, i_ in U.bindings_of(fn, bound, within=au.enclosing_func(t)):
+            if i_ is not None or isinstance(v_, ast.AugAssign):
+                continue
+            conds = [(g, p) for g, p in au.guards(s_) if not isinstance(au.parent(g), ast.While)
+                     and not (is_self_call(U.strip_not(g, p)[0], "is_leaf"))]
+            finite = v_
+            if isinstance(v_, ast.IfExp) and (is_inf(v_.body) != is_inf(v_.orelse)):
+                conds = conds + [(v_.test, is_inf(v_.orelse))]
+                finite = v_.body if is_inf(v_.orelse) else v_.orelse
+            elif is_inf(v_):
+                continue
+            finite_test = U.conj(conds)
             try:
-                res = U.relate(finite_test, "n >= k", generic_sym({n: "n", k: "k"}))
-                ctx.check(res["code_not_spec"] is None, "C11-K1", site,
+                wit, ne = grid_witness(finite_test, lambda env: env[n] >= env[k], (n, k), mode="code_implies_spec")
+                ctx.check(wit is None, "C11-K1", site,
                           f"the pruning bound is finite under `{au.src(finite_test)}`, which does not imply {n} >= {k}",
-                          f"for {res['code_not_spec']} fewer than k candidates are held but subtrees are pruned against the worst of them",
-                          note="finite bound only when k candidates are held")
+                          f"for {wit} fewer than k candidates are held but subtrees are pruned against the worst of them",
+                          note=f"finite bound only when k candidates are held, {ne} integer assignments")
             except order.Unsupported:
                 pass
             try:
